@@ -50,6 +50,28 @@ JOINS = {
 }
 
 
+class LibCrash(Exception):
+    """The library raised on an input that satisfies its documented preconditions."""
+
+    def __init__(self, exc, where):
+        Exception.__init__(self, '%s: %s' % (type(exc).__name__, exc))
+        self.exc_type = type(exc).__name__
+        self.msg = str(exc)[:300]
+        self.where = where
+
+
+def lib(fn, *a, **kw):
+    """Call into the library; an exception becomes a LibCrash, which the engine reports as a
+    violation of the property under check (valid input must not crash)."""
+    try:
+        return fn(*a, **kw)
+    except Exception as e:      # noqa: BLE001
+        import traceback
+        tb = traceback.extract_tb(e.__traceback__)
+        where = '%s:%d' % (tb[-1].filename.split('/')[-1], tb[-1].lineno) if tb else '?'
+        raise LibCrash(e, where)
+
+
 def join_fn(measure):
     return JOINS[measure]()
 
